@@ -58,6 +58,8 @@ type world struct {
 	otherRnd []byte
 	idx      map[string]int // member id (hex) -> 1-based index; outsider -> nMem+1
 	vcache   map[string]bool
+	jg       *model.JoinedGroupInfo // the node's key table for the group (member id -> share key)
+	attSK    groupsig.Seckey        // the key an attacker announces for other members
 }
 
 func (w *world) pkOf(i int) groupsig.Pubkey {
@@ -119,6 +121,10 @@ func newWorld(salt int64, scratch string) *world {
 	for i := 1; i <= nMem; i++ {
 		jg.AddMemberSignPK(g.IDs[i-1], g.SignPK[i-1])
 	}
+	w.jg = jg
+	aseed := make([]byte, 32)
+	rng.Read(aseed)
+	w.attSK = *groupsig.NewSeckeyFromRand(base.RandFromBytes(aseed))
 	storage := access.NewJoinedGroupStorage()
 	storage.JoinGroup(jg, g.IDs[0])
 	group_create.VerifInstallJoinedGroups(storage)
@@ -179,6 +185,18 @@ func (w *world) build(m tmsg, wire bool) (*model.ConsensusVerifyMessage, common.
 		rnd = groupsig.Sign(sk, w.otherRnd)
 	case "emptyRand":
 		rnd = groupsig.Signature{}
+	case "selfGarbage": // filed under the receiver's own id: points that are nobody's shares
+		share = groupsig.Sign(w.outSK, []byte("self-garbage"))
+		rnd = groupsig.Sign(w.outSK, []byte("self-garbage-r"))
+	case "selfOther": // filed under the receiver's own id: another member's valid shares
+		share = groupsig.Sign(w.skOf(2), w.h.Bytes())
+		rnd = groupsig.Sign(w.skOf(2), w.preBH.Random)
+	case "selfSender": // filed under the receiver's own id: the faulty sender's own valid shares
+		share = groupsig.Sign(w.skOf(nMem), w.h.Bytes())
+		rnd = groupsig.Sign(w.skOf(nMem), w.preBH.Random)
+	case "underOtherKey": // filed under a member's id, made with the key somebody else announced for it
+		share = groupsig.Sign(w.attSK, w.h.Bytes())
+		rnd = groupsig.Sign(w.attSK, w.preBH.Random)
 	case "swapped": // the two shares in each other's field: each invalid where it stands, their sum unchanged
 		share, rnd = rnd, share
 	case "shiftRandom": // block share + D, beacon share - D for a point D nobody can relate to the shares
@@ -231,6 +249,53 @@ func (w *world) build(m tmsg, wire bool) (*model.ConsensusVerifyMessage, common.
 	return cvm, dataHash, shareBytes, rndBytes
 }
 
+// announce delivers a SignPubKeyMessage to the node's real handler: member s's genuine share key, or
+// (other) the attacker's key under member s's id. The message is signed with the key it carries.
+func (w *world) announce(s int, other bool) {
+	sk := w.skOf(s)
+	if other {
+		sk = w.attSK
+	}
+	msg := &model.SignPubKeyMessage{GroupHash: w.g.Info.GroupHash(), GroupID: w.gid, SignPK: *groupsig.GeneratePubkey(sk),
+		GroupMemberNum: int32(nMem)}
+	si, ok := model.NewSignInfo(sk, w.idOf(s), msg)
+	if !ok {
+		vutil.Fatalf("harness: cannot sign a key announcement")
+	}
+	msg.SignInfo = si
+	group_create.GroupCreateProcessor.OnMessageSignPK(msg)
+}
+
+// resetKeys puts the node's key table back: every member's genuine key, without the late member's
+// when the sequence is about announcements.
+func (w *world) resetKeys(withoutLate bool) {
+	for k := range w.jg.MemberSignPubkeyMap {
+		delete(w.jg.MemberSignPubkeyMap, k)
+	}
+	for i := 1; i <= nMem; i++ {
+		if withoutLate && i == 2 {
+			continue
+		}
+		w.jg.AddMemberSignPK(w.g.IDs[i-1], w.g.SignPK[i-1])
+	}
+}
+
+func (w *world) keyTable() []string {
+	out := make([]string, nMem)
+	for i := 1; i <= nMem; i++ {
+		pk, ok := w.jg.GetMemberSignPK(w.g.IDs[i-1])
+		switch {
+		case !ok:
+			out[i-1] = "none"
+		case pk.IsEqual(w.g.SignPK[i-1]):
+			out[i-1] = "genuine"
+		default:
+			out[i-1] = "other"
+		}
+	}
+	return out
+}
+
 func (w *world) project(r *logical.VerifRound) map[string]interface{} {
 	set := func(m map[string][]byte, data []byte) []map[string]interface{} {
 		out := []map[string]interface{}{}
@@ -245,6 +310,7 @@ func (w *world) project(r *logical.VerifRound) map[string]interface{} {
 		return out
 	}
 	st := map[string]interface{}{
+		"keys":       w.keyTable(),
 		"gset":       set(r.BlockShares(), w.h.Bytes()),
 		"rset":       set(r.BeaconShares(), w.preBH.Random),
 		"recovered":  r.BlockSignRecovered(),
@@ -309,9 +375,23 @@ func main() {
 			path = "wire"
 			nwire++
 		}
-		tr.Emit(map[string]interface{}{"event": "Start", "path": path, "n": w.info.GetMemberCount(), "k": r.Threshold()})
+		aboutKeys := false
+		for _, m := range hist {
+			if m.Kind == "announce" || m.Kind == "announceOther" || m.Kind == "underOtherKey" {
+				aboutKeys = true
+			}
+		}
+		w.resetKeys(aboutKeys)
+		tr.Emit(map[string]interface{}{"event": "Start", "path": path, "n": w.info.GetMemberCount(), "k": r.Threshold(), "keys": w.keyTable()})
 		dead := false
 		for _, m := range hist {
+			if m.Kind == "announce" || m.Kind == "announceOther" {
+				w.announce(m.Sender, m.Kind == "announceOther")
+				tr.Emit(map[string]interface{}{"event": "Msg", "m": m, "facts": map[string]interface{}{}, "err": "", "panicked": false, "state": w.project(r)})
+				nmsg++
+				kinds[m.Kind]++
+				continue
+			}
 			cvm, dataHash, shareBytes, rndBytes := w.build(m, wire)
 			facts := map[string]interface{}{
 				"isMember":          m.Sender <= nMem,
@@ -354,7 +434,7 @@ func main() {
 	}
 	tr.Close()
 	fmt.Printf("c15: histories=%d wire=%d messages=%d recovered=%d", len(hists), nwire, nmsg, nrec)
-	for _, k := range []string{"honest", "otherHash", "replay", "garbage", "offcurve", "badRand", "emptyRand", "swapped", "shiftRandom", "shiftSmall", "nonMember"} {
+	for _, k := range []string{"honest", "otherHash", "replay", "garbage", "offcurve", "badRand", "emptyRand", "swapped", "shiftRandom", "shiftSmall", "selfGarbage", "selfOther", "selfSender", "announce", "announceOther", "underOtherKey", "nonMember"} {
 		fmt.Printf(" %s=%d", k, kinds[k])
 	}
 	fmt.Printf(" events=%d\n", tr.N)
